@@ -98,3 +98,18 @@ Fixpoint steps_ok (s : al) (ops : list op) (obs : list (list key * al)) : list b
   | (L, cap) :: r, (sel, s') :: o => valid_stepb s L cap sel s' :: steps_ok s' r o
   | _, _ => []
   end.
+
+(* ---- judging a call site by the selections it actually made (round 4: a call site that does not persist its counts,
+   a report that merges two candidate spaces).  [sel_count] is the number of selections of [k] so far; [derived_obs] pairs
+   every selection with the counts the selections themselves imply, so that [valid_runb] compares every step with the true
+   history whatever the implementation stored; [reportb] holds a reported table to the selections. ---- *)
+Definition sel_count (sels : list (list key)) (k : key) : nat := list_sum (map (fun sel => cnt sel k) sels).
+
+Fixpoint derived_obs (s : al) (sels : list (list key)) : list (list key * al) :=
+  match sels with
+  | [] => []
+  | sel :: r => let s' := fold_left incr sel s in (sel, s') :: derived_obs s' r
+  end.
+
+Definition reportb (sels : list (list key)) (rep : al) : bool :=
+  forallb (fun k => Nat.eqb (get rep k) (sel_count sels k)) (map fst rep ++ concat sels).
